@@ -96,7 +96,7 @@ def validate(number):
        group == '00' or serial == '0000':
         raise InvalidComponent()
     # check blacklists
-    if format(number) in _ssn_blacklist:
+    if format(number) in _ssn_blacklist or '-'.join((area, group, serial)) in _ssn_blacklist:
         raise InvalidComponent()
     return compact(number)
 
